@@ -632,7 +632,12 @@ func (sp *subProcess) NextAction(ctx context.Context, flow Flow) chan IAction {
 	}
 
 	response := make(chan IAction, 1)
-	sp.mch <- nextActionMessage{response: response}
+	// the run loop exits when ctx is done: a flow arriving then must not wait
+	// for room in an inbox nobody drains any more
+	select {
+	case sp.mch <- nextActionMessage{response: response}:
+	case <-ctx.Done():
+	}
 	return response
 }
 
